@@ -3,7 +3,7 @@
 (* C01 / C07 - reference semantics of the core language as a small-step     *)
 (* abstract machine (control, environment heap, continuation, output).     *)
 (* A machine state is a record                                             *)
-(*   [mode, node, val, env, kont, heap, defs, out, halted, nid, ex]        *)
+(*   [mode, node, val, env, kont, heap, defs, out, halted, nid, ex, res]   *)
 (* mode "eval": `node` is evaluated in environment frame `env`;            *)
 (* mode "ret" : `val` (a sequence of values, multiple values) is returned  *)
 (*              to the top frame of `kont`;                                *)
@@ -17,6 +17,9 @@
 (* go are identified lexically: block and tagbody frames carry unique ids, *)
 (* the ids visible at a point are looked up in the continuation of the     *)
 (* same function activation (function bodies start a new lexical extent). *)
+(* `res` is the table of resources (mutexes, file streams): res[r] is TRUE *)
+(* while the mutex is held / the stream is open; a `res` frame on `kont`   *)
+(* releases its resource whichever way control leaves it.                 *)
 (***************************************************************************)
 EXTENDS Integers, Sequences, TLC, FiniteSets
 Nil == [k |-> "nil"]
@@ -64,7 +67,25 @@ NewFrame(m, parent, vs) == LET h2 == Append(m.heap, [parent |-> parent, vars |->
 Top(m) == Len(m.heap)                             \* id of the frame NewFrame just made
 Bindings(ps, vals) == [j \in 1..Len(ps) |-> [n |-> ps[j], v |-> IF j <= Len(vals) THEN vals[j] ELSE Nil]]
 Exit(m, kind, target, tag, v) == [m EXCEPT !.mode = "exit", !.ex = [kind |-> kind, target |-> target, tag |-> tag, val |-> v]]
-Err(m, class) == Exit(m, "error", 0, class, Nil)
+Err(m, class) == Exit(m, "error", 0, class, <<>>)
+\* typecase / etypecase: the type names the generator uses, on the values of the machine
+TypeMatch(ty, v) == CASE ty = "t" -> TRUE
+                      [] ty \in {"fixnum", "integer", "number"} -> v.k = "int"
+                      [] ty = "string" -> v.k = "str"
+                      [] ty = "null" -> v.k = "nil"
+                      [] ty = "symbol" -> v.k \in {"sym", "nil"}
+                      [] ty = "list" -> v.k \in {"nil", "list"}
+                      [] OTHER -> FALSE
+IsInt(v) == v.k = "int"
+Abs(i) == IF i < 0 THEN -i ELSE i
+Sgn(i) == IF i < 0 THEN -1 ELSE 1
+TruncQ(a, b) == (Abs(a) \div Abs(b)) * Sgn(a) * Sgn(b)
+\* The bodies of tagbody, dolist, dotimes, do and do* are tag bodies: a symbol or an integer at statement level is a
+\* tag, it is not evaluated (a variable that happens to have no value is not an error there).
+IsTag(e) == \/ e.k = "var"
+            \/ e.k = "lit" /\ e.v.k \in {"int", "nil", "t"} /\ (("q" \in DOMAIN e) => e.q = 0)
+Stmts(body) == SelectSeq(body, LAMBDA e : ~IsTag(e))
+TagStmt(e) == IF IsTag(e) THEN [k |-> "lit", v |-> Nil] ELSE e          \* a statement of a tagbody that is itself a tag does nothing
 RECURSIVE SumOf(_)
 SumOf(args) == IF args = <<>> THEN 0 ELSE args[1].v + SumOf(Tail(args))
 \* applying a function value to argument values: a closure or a named function
@@ -93,9 +114,19 @@ StepEval(m) ==
     [] n.k \in {"when", "unless"} -> Ev(Push(m, [k |-> n.k, body |-> n.body, env |-> m.env]), n.c, m.env)
     [] n.k = "cond" -> IF Len(n.cs) = 0 THEN Ret(m, Nil)
                        ELSE Ev(Push(m, [k |-> "cond", cs |-> n.cs, env |-> m.env]), n.cs[1].c, m.env)
-    [] n.k = "case" -> Ev(Push(m, [k |-> "case", cs |-> n.cs, env |-> m.env]), n.e, m.env)
+    [] n.k = "case" -> Ev(Push(m, [k |-> "case", cs |-> n.cs, strict |-> n.strict, env |-> m.env]), n.e, m.env)
     [] n.k = "mark" -> Ev(Push(m, [k |-> "mark", id |-> n.id]), n.e, m.env)
-    [] n.k \in {"add", "sub", "lt", "eq", "cons"} -> Ev(Push(m, [k |-> "bin1", op |-> n.k, b |-> n.b, env |-> m.env]), n.a, m.env)
+    [] n.k = "setqs" -> IF Len(n.ps) = 0 THEN Ret(m, Nil)                     \* (setq a e1 b e2 ...): sequential
+                        ELSE Ev(Push(m, [k |-> "setqs", ps |-> n.ps, i |-> 1, env |-> m.env]), n.ps[1].e, m.env)
+    [] n.k = "tcase" -> Ev(Push(m, [k |-> "tcase", cs |-> n.cs, strict |-> n.strict, env |-> m.env]), n.e, m.env)
+    [] n.k = "newres" -> Ret([m EXCEPT !.res = Append(m.res, FALSE)], [k |-> "res", id |-> Len(m.res) + 1])     \* (make-mutex)
+    [] n.k = "withlock" -> Ev(Push(m, [k |-> "withlock0", body |-> n.body, env |-> m.env]), n.e, m.env)
+    [] n.k = "withfile" -> \* (with-open-file (var ...) body): the stream is open inside and closed whichever way control leaves
+         LET r == Len(m.res) + 1
+             m2 == NewFrame([m EXCEPT !.res = Append(m.res, TRUE)], m.env, <<[n |-> n.var, v |-> [k |-> "res", id |-> r]]>>) IN
+         Body(Push(m2, [k |-> "res", id |-> r]), n.body, Top(m2))
+    [] n.k = "held" -> Ev(Push(m, [k |-> "held"]), n.e, m.env)
+    [] n.k \in {"add", "sub", "lt", "eq", "cons", "trunc"} -> Ev(Push(m, [k |-> "bin1", op |-> n.k, b |-> n.b, env |-> m.env]), n.a, m.env)
     [] n.k \in {"car", "cdr"} -> Ev(Push(m, [k |-> "un", op |-> n.k]), n.a, m.env)
     [] n.k \in {"list", "values"} -> IF Len(n.es) = 0 THEN (IF n.k = "list" THEN Ret(m, Nil) ELSE RetVs(m, <<>>))
                                      ELSE Ev(Push(m, [k |-> "args", op |-> n.k, rest |-> Tail(n.es), acc |-> <<>>, env |-> m.env]), n.es[1], m.env)
@@ -112,9 +143,9 @@ StepEval(m) ==
     [] n.k = "retfrom" -> Ev(Push(m, [k |-> "retfrom", name |-> n.name]), n.e, m.env)
     [] n.k = "protect" -> Ev(Push(m, [k |-> "protect", cleanup |-> n.cleanup, env |-> m.env]), n.e, m.env)
     [] n.k = "tagbody" -> LET m2 == Push([m EXCEPT !.nid = m.nid + 1], [k |-> "tagbody", stmts |-> n.stmts, i |-> 1, id |-> m.nid, env |-> m.env]) IN
-                          IF Len(n.stmts) = 0 THEN Ret(m, Nil) ELSE Ev(m2, n.stmts[1].e, m.env)
+                          IF Len(n.stmts) = 0 THEN Ret(m, Nil) ELSE Ev(m2, TagStmt(n.stmts[1].e), m.env)
     [] n.k = "go" -> LET tgt == TagbodyIdFrom(m.kont, n.tag, 1) IN
-                     IF tgt = 0 THEN Err(m, "control-error") ELSE Exit(m, "go", tgt, n.tag, Nil)
+                     IF tgt = 0 THEN Err(m, "control-error") ELSE Exit(m, "go", tgt, n.tag, <<>>)
     [] n.k = "error" -> Err(m, n.class)
     [] n.k = "ignerr" -> Body(Push(m, [k |-> "ignerr"]), n.body, m.env)
     [] n.k = "fcall" -> Ev(Push(m, [k |-> "fc", args |-> n.args, i |-> 0, f |-> Nil, acc |-> <<>>, spread |-> n.spread, env |-> m.env]), n.f, m.env)
@@ -141,7 +172,7 @@ LoopNext(m1, fr) ==
        LET m2 == NewFrame(m1, fr.env, <<[n |-> fr.var, v |-> fr.last]>>) IN
        Ev(Push(m2, [k |-> "loopres"]), fr.res, Top(m2))
   ELSE LET m2 == NewFrame(m1, fr.env, <<[n |-> fr.var, v |-> fr.items[1]]>>) IN
-       Body(Push(m2, [fr EXCEPT !.items = Tail(fr.items)]), fr.body, Top(m2))
+       Body(Push(m2, [fr EXCEPT !.items = Tail(fr.items)]), Stmts(fr.body), Top(m2))
 RECURSIVE Upto(_, _)
 Upto(i, n) == IF i >= n THEN <<>> ELSE <<IntV(i)>> \o Upto(i + 1, n)
 DoVarsFrame(n, vals) == [j \in 1..Len(n.vars) |-> [n |-> n.vars[j].n, v |-> vals[j]]]
@@ -168,25 +199,40 @@ StepRet(m) ==
                         ELSE IF Len(fr.cs) = 1 THEN Ret(m1, Nil)
                         ELSE Ev(Push(m1, [fr EXCEPT !.cs = Tail(fr.cs)]), fr.cs[2].c, fr.env)
     [] fr.k = "case" -> LET hit == SelectSeq(fr.cs, LAMBDA c : c.dflt \/ \E j \in 1..Len(c.keys) : c.keys[j] = v) IN
-                        IF hit = <<>> THEN Ret(m1, Nil) ELSE Body(m1, hit[1].body, fr.env)
+                        IF hit = <<>> THEN (IF fr.strict THEN Err(m1, "type-error") ELSE Ret(m1, Nil))   \* ecase
+                        ELSE Body(m1, hit[1].body, fr.env)
+    [] fr.k = "tcase" -> LET hit == SelectSeq(fr.cs, LAMBDA c : TypeMatch(c.type, v)) IN
+                         IF hit = <<>> THEN (IF fr.strict THEN Err(m1, "type-error") ELSE Ret(m1, Nil))   \* etypecase
+                         ELSE Body(m1, hit[1].body, fr.env)
+    [] fr.k = "setqs" -> LET m2 == [m1 EXCEPT !.heap = Set(m.heap, fr.env, fr.ps[fr.i].n, v)] IN
+                         IF fr.i = Len(fr.ps) THEN Ret(m2, v)
+                         ELSE Ev(Push(m2, [fr EXCEPT !.i = fr.i + 1]), fr.ps[fr.i + 1].e, fr.env)
+    [] fr.k = "withlock0" -> IF v.k # "res" THEN Err(m1, "type-error")
+                             ELSE Body(Push([m1 EXCEPT !.res[v.id] = TRUE], [k |-> "res", id |-> v.id]), fr.body, fr.env)
+    [] fr.k = "res" -> RetVs([m1 EXCEPT !.res[fr.id] = FALSE], m.val)          \* released on the normal path
+    [] fr.k = "held" -> Ret(m1, IF v.k = "res" THEN Bool(m.res[v.id]) ELSE Nil)
     [] fr.k = "mark" -> Ret([m1 EXCEPT !.out = Append(m.out, [id |-> fr.id, v |-> v])], v)
     [] fr.k \in {"block", "fnbody", "ignerr"} -> RetVs(m1, m.val)
     [] fr.k = "retfrom" -> LET tgt == BlockIdFrom(m1.kont, fr.name, 1) IN
-                           IF tgt = 0 THEN Err(m1, "control-error") ELSE Exit(m1, "return", tgt, "", v)
+                           IF tgt = 0 THEN Err(m1, "control-error") ELSE Exit(m1, "return", tgt, "", m.val)   \* all the values
     [] fr.k = "protect" -> Body(Push(m1, [k |-> "after-cleanup", pending |-> FALSE, vals |-> m.val, ex |-> m.ex]), fr.cleanup, fr.env)
     [] fr.k = "after-cleanup" -> IF fr.pending THEN [m1 EXCEPT !.mode = "exit", !.ex = fr.ex] ELSE RetVs(m1, fr.vals)
     [] fr.k = "tagbody" -> IF fr.i >= Len(fr.stmts) THEN Ret(m1, Nil)
-                           ELSE Ev(Push(m1, [fr EXCEPT !.i = fr.i + 1]), fr.stmts[fr.i + 1].e, fr.env)
+                           ELSE Ev(Push(m1, [fr EXCEPT !.i = fr.i + 1]), TagStmt(fr.stmts[fr.i + 1].e), fr.env)
     [] fr.k = "bin1" -> Ev(Push(m1, [k |-> "bin2", op |-> fr.op, a |-> v]), fr.b, fr.env)
     \* (a nested CASE must be parenthesised: following [] arms would otherwise be read as its arms)
-    [] fr.k = "bin2" -> (CASE fr.op = "add" -> Ret(m1, IntV(fr.a.v + v.v))
+    [] fr.k = "bin2" -> (CASE fr.op \in {"add", "sub", "lt", "eq", "trunc"} /\ ~(IsInt(fr.a) /\ IsInt(v)) -> Err(m1, "type-error")
+                          [] fr.op = "add" -> Ret(m1, IntV(fr.a.v + v.v))
                           [] fr.op = "sub" -> Ret(m1, IntV(fr.a.v - v.v))
                           [] fr.op = "lt" -> Ret(m1, Bool(fr.a.v < v.v))
-                          [] fr.op = "eq" -> Ret(m1, Bool(fr.a = v))
+                          [] fr.op = "trunc" -> IF v.v = 0 THEN Err(m1, "division-by-zero")     \* (truncate a b): two values
+                                                ELSE RetVs(m1, <<IntV(TruncQ(fr.a.v, v.v)), IntV(fr.a.v - TruncQ(fr.a.v, v.v) * v.v)>>)
+                          [] fr.op = "eq" -> Ret(m1, Bool(fr.a.v = v.v))                               \* rendered as (= a b)
                           [] fr.op = "cons" -> Ret(m1, ListV(<<fr.a>> \o Elts(v)))
                           [] OTHER -> Err(m1, "machine-stuck-at-operator-" \o fr.op))
     [] fr.k = "un" -> LET es == Elts(v) IN
-                      IF fr.op = "car" THEN Ret(m1, IF es = <<>> THEN Nil ELSE es[1])
+                      IF v.k \notin {"nil", "list"} THEN Err(m1, "type-error")
+                      ELSE IF fr.op = "car" THEN Ret(m1, IF es = <<>> THEN Nil ELSE es[1])
                       ELSE Ret(m1, IF Len(es) <= 1 THEN Nil ELSE ListV(Tail(es)))
     [] fr.k = "args" -> LET acc == Append(fr.acc, v) IN
                         IF Len(fr.rest) = 0 THEN (IF fr.op = "list" THEN Ret(m1, ListV(acc)) ELSE RetVs(m1, acc))
@@ -236,7 +282,7 @@ StepRet(m) ==
                    Ev(Push(m2, [k |-> "dotest", n |-> n, env |-> Top(m2)]), n.test, Top(m2))
               ELSE Ev(Push(m1, [fr EXCEPT !.i = fr.i + 1, !.acc = acc]), n.vars[fr.i + 1].init, fr.outer)
     [] fr.k = "dotest" -> IF IsTrue(v) THEN Body(m1, fr.n.res, fr.env)     \* values of the result forms leave through the block frame
-                          ELSE Body(Push(m1, [k |-> "dobody", n |-> fr.n, env |-> fr.env]), fr.n.body, fr.env)
+                          ELSE Body(Push(m1, [k |-> "dobody", n |-> fr.n, env |-> fr.env]), Stmts(fr.n.body), fr.env)
     [] fr.k = "dobody" -> IF Len(fr.n.vars) = 0 THEN Ev(Push(m1, [k |-> "dotest", n |-> fr.n, env |-> fr.env]), fr.n.test, fr.env)
                           ELSE Ev(Push(m1, [k |-> "dostep", n |-> fr.n, i |-> 1, acc |-> <<>>, env |-> fr.env]), fr.n.vars[1].step, fr.env)
     [] fr.k = "dostep" ->
@@ -259,17 +305,18 @@ TagIndex(stmts, tag) == CHOOSE j \in 1..Len(stmts) : stmts[j].tag = tag
 StepExit(m) ==
   IF Len(m.kont) = 0 THEN [m EXCEPT !.halted = TRUE, !.mode = "ret", !.val = One([k |-> "err", c |-> m.ex.tag])]
   ELSE LET fr == m.kont[1]  m1 == Pop(m)  x == m.ex IN
-  IF fr.k = "block" /\ x.kind = "return" /\ fr.id = x.target THEN Ret(m1, x.val)
+  IF fr.k = "block" /\ x.kind = "return" /\ fr.id = x.target THEN RetVs(m1, x.val)
   ELSE IF fr.k = "tagbody" /\ x.kind = "go" /\ fr.id = x.target
-       THEN LET j == TagIndex(fr.stmts, x.tag) IN Ev(Push(m1, [fr EXCEPT !.i = j]), fr.stmts[j].e, fr.env)
+       THEN LET j == TagIndex(fr.stmts, x.tag) IN Ev(Push(m1, [fr EXCEPT !.i = j]), TagStmt(fr.stmts[j].e), fr.env)
   ELSE IF fr.k = "ignerr" /\ x.kind = "error" THEN Ret(m1, Nil)
+  ELSE IF fr.k = "res" THEN [m1 EXCEPT !.res[fr.id] = FALSE]                  \* released on the way out
   ELSE IF fr.k = "protect"
        THEN Body(Push([m1 EXCEPT !.mode = "eval"], [k |-> "after-cleanup", pending |-> TRUE, vals |-> <<>>, ex |-> x]), fr.cleanup, fr.env)
   ELSE m1
 Step(m) == IF m.mode = "eval" THEN StepEval(m) ELSE IF m.mode = "exit" THEN StepExit(m) ELSE StepRet(m)
 RECURSIVE RunToMark(_,_)
 RunToMark(m, n) == IF m.halted \/ Len(m.out) > n THEN m ELSE RunToMark(Step(m), n)
-NoExit == [kind |-> "", target |-> 0, tag |-> "", val |-> Nil]
+NoExit == [kind |-> "", target |-> 0, tag |-> "", val |-> <<>>]
 Load(defs, ast) == [mode |-> "eval", node |-> ast, val |-> One(Nil), env |-> 1, kont |-> <<>>, defs |-> defs,
-                    heap |-> << [parent |-> 0, vars |-> <<>>] >>, out |-> <<>>, halted |-> FALSE, nid |-> 1, ex |-> NoExit]
+                    heap |-> << [parent |-> 0, vars |-> <<>>] >>, out |-> <<>>, halted |-> FALSE, nid |-> 1, ex |-> NoExit, res |-> <<>>]
 =============================================================================
